@@ -128,15 +128,18 @@ Qed.
 Lemma chain_go_length fuel : forall t fat i, (length (fst (chain_go fuel t fat i)) <= fuel)%nat.
 Proof.
   induction fuel as [|f IH]; intros t fat i; cbn [chain_go]; [simpl; lia|].
-  destruct ((i <? 0) || (lenZ fat <=? i)); [simpl; lia|].
+  destruct ((i <? Gen.MIN_DATA_CLUSTER t) || (lenZ fat <=? i)); [simpl; lia|].
   destruct (is_data t (nthZ fat i)).
   - pose proof (IH t fat (nthZ fat i)) as H. destruct (chain_go f t fat (nthZ fat i)) as [r ok]. cbn [fst length] in *. lia.
   - destruct (is_eoc t (nthZ fat i)); simpl; lia.
 Qed.
-Lemma chain_go_in_fat fuel : forall t fat i c, In c (fst (chain_go fuel t fat i)) -> 0 <= c < lenZ fat.
+Lemma min_data_nonneg t : 0 <= Gen.MIN_DATA_CLUSTER t.
+Proof. unfold Gen.MIN_DATA_CLUSTER. destruct (t =? 12); [lia|]. destruct (t =? 16); [lia|]. destruct (t =? 32); lia. Qed.
+(** ... each of them a data-cluster number inside the FAT: clusters 0 and 1 are never followed *)
+Lemma chain_go_in_fat fuel : forall t fat i c, In c (fst (chain_go fuel t fat i)) -> 0 <= c < lenZ fat /\ Gen.MIN_DATA_CLUSTER t <= c.
 Proof.
-  induction fuel as [|f IH]; intros t fat i c H; cbn [chain_go] in H; [simpl in H; tauto|].
-  destruct ((i <? 0) || (lenZ fat <=? i)) eqn:E; [simpl in H; tauto|].
+  induction fuel as [|f IH]; intros t fat i c H; cbn [chain_go] in H; [simpl in H; tauto|]. pose proof (min_data_nonneg t) as Hm.
+  destruct ((i <? Gen.MIN_DATA_CLUSTER t) || (lenZ fat <=? i)) eqn:E; [simpl in H; tauto|].
   apply orb_false_iff in E. destruct E as [E1 E2]. apply Z.ltb_ge in E1. apply Z.leb_gt in E2.
   destruct (is_data t (nthZ fat i)).
   - pose proof (IH t fat (nthZ fat i) c) as H'. destruct (chain_go f t fat (nthZ fat i)) as [r ok]. cbn [fst] in *.
@@ -151,7 +154,7 @@ Lemma chain_go_ok_links fuel : forall t fat i l,
   is_eoc t (nthZ fat (last l 0)) = true.
 Proof.
   induction fuel as [|f IH]; intros t fat i l H; cbn [chain_go] in H; [discriminate|].
-  destruct ((i <? 0) || (lenZ fat <=? i)); [discriminate|].
+  destruct ((i <? Gen.MIN_DATA_CLUSTER t) || (lenZ fat <=? i)); [discriminate|].
   destruct (is_data t (nthZ fat i)) eqn:Ed.
   - destruct (chain_go f t fat (nthZ fat i)) as [r ok] eqn:Er. inversion H; subst l ok.
     destruct (IH _ _ _ _ Er) as (Hne & Hhd & Hl & He).
